@@ -14,11 +14,15 @@ OWNED = {'calls': 'bodies', 'record_timing': 'records written at the wrong momen
 def families(tier):
   if tier == 'quick':
     return [('structure4', execlib.fam_structure(4, 'PQUG', 'CFXE')),
+            # every way a node can end terminal: STOP, exception, listed failure exception, a return value
+            # that is no PhaseResult (truthy and falsy)
+            ('terminal-kinds3', execlib.fam_structure(3, 'PQUG', 'CSGIJ', minn=1)),
             ('branches2', execlib.fam_branches(2, range(8))),
             ('branches3', execlib.fam_branches(3, (0, 3))),
             ('teardown-nesting', execlib.fam_teardown_nesting()),
             ('checkpoint-context', execlib.fam_checkpoint_context())]
   return [('structure5', execlib.fam_structure(5, 'PQUG', 'CFXE')),
+          ('terminal-kinds4', execlib.fam_structure(4, 'PQUG', 'CSGIJ', minn=1)),
           ('branches3', execlib.fam_branches(3, range(8))),
           ('branches4', execlib.fam_branches(4, (1, 6), kinds='PBKU')),
           ('groups-abort', execlib.fam_groups(4, 'CEA')),
